@@ -26,6 +26,8 @@ pub mod world;
 pub enum Cmd {
     Step(Value),
     Observe,
+    /// observation of the thread that has just performed the given step (may look closer)
+    ObserveActing(Value),
     Quit,
 }
 
@@ -52,6 +54,12 @@ pub trait Machine: Sync + 'static {
     fn exec(&'static self, step: &Value) -> Option<Leave>;
     /// What the calling model thread observes right now.
     fn observe(&'static self) -> Value;
+    /// The same for the thread that has just performed `step`: machines may add probes there
+    /// (observations nested inside callbacks, a caught panic followed by an observation, ...).
+    fn observe_acting(&'static self, step: &Value) -> Value {
+        let _ = step;
+        self.observe()
+    }
 }
 
 /// Where a model thread is, as seen by the watchdog: waiting for a command (the engine's own
@@ -96,6 +104,10 @@ pub fn run_loop<M: Machine>(m: &'static M) -> Leave {
             Cmd::Quit => return Leave::Quit,
             Cmd::Observe => {
                 let o = m.observe();
+                reply(o)
+            }
+            Cmd::ObserveActing(step) => {
+                let o = m.observe_acting(&step);
                 reply(o)
             }
             Cmd::Step(step) => {
@@ -269,7 +281,7 @@ pub fn run_case<M: Machine>(
         }
         let mut obs = Vec::with_capacity(nthreads);
         for u in 0..nthreads {
-            let _ = txs[u].send(Cmd::Observe);
+            let _ = txs[u].send(if u == t - 1 { Cmd::ObserveActing(step.clone()) } else { Cmd::Observe });
             let o = wait(u, "observation", i);
             if let Some(e) = o.get("tool_error") {
                 tool_error(&format!("{e} (observation of thread {}) at step {i} of {}", u + 1, json!(steps)));
